@@ -114,17 +114,20 @@ def AttemptShape (rtl : Bool) (n : Nat) (attempt : Nat → Option (Nat × Nat)) 
 
 /-- The candidate finder is only an accelerator: from `pos` it moves ahead in scan direction, stays
     inside the input, a reported candidate `q` skips only positions at which the program fails, and
-    "no candidate" means the program fails at every remaining position. -/
+    "no candidate, position left at `q`" means the program fails at every position from `pos` up to
+    and including `q` — the scan loop then stops if `q` is the end of the scan and otherwise goes on
+    behind `q` (the anchored prefix test `BmPrefix.IsMatch` fails without moving the position; the
+    searching finders leave the position at the end of the scan). -/
 def FinderSound (rtl : Bool) (n : Nat) (finder : Nat → Bool × Nat) (attempt : Nat → Option (Nat × Nat)) : Prop :=
   ∀ pos, pos ≤ n →
     if rtl then
       (finder pos).2 ≤ pos ∧
       ((finder pos).1 = true → ∀ p, (finder pos).2 < p → p ≤ pos → attempt p = none) ∧
-      ((finder pos).1 = false → ∀ p, p ≤ pos → attempt p = none)
+      ((finder pos).1 = false → ∀ p, (finder pos).2 ≤ p → p ≤ pos → attempt p = none)
     else
       pos ≤ (finder pos).2 ∧ (finder pos).2 ≤ n ∧
       ((finder pos).1 = true → ∀ p, pos ≤ p → p < (finder pos).2 → attempt p = none) ∧
-      ((finder pos).1 = false → ∀ p, pos ≤ p → p ≤ n → attempt p = none)
+      ((finder pos).1 = false → ∀ p, pos ≤ p → p ≤ (finder pos).2 → attempt p = none)
 
 /-- Where a failed execution leaves the scan position (bump-along update): ahead of its start,
     inside the input, having skipped only positions at which the program fails. -/
